@@ -225,6 +225,10 @@ theorem decodeP_noPanic : ∀ (ty : Ty), widthsOk ty = true → NoPanic (decodeP
     simp only [decodeP]
     have := decodeP_noPanic t (by simpa [widthsOk] using h)
     exact noPanic_descend (noPanic_alloc (noPanic_bind this (fun _ => noPanic_ascend (noPanic_pure _))))
+  | .wrap t, h => by
+    simp only [decodeP]
+    have := decodeP_noPanic t (by simpa [widthsOk] using h)
+    exact noPanic_descend (noPanic_bind this (fun _ => noPanic_ascend (noPanic_pure _)))
   | .duration, _ => by
     simp only [decodeP]
     exact noPanic_read (fun _ => noPanic_read (fun _ => noPanic_ite noPanic_fail (noPanic_pure _)))
